@@ -345,7 +345,7 @@ def run_interleave(ctx, case, ns, rng, spec, sysobj):
         # (built the same way, never analysed) gives for the same call
         for sp, sj in systems:
             phs = list((sp.get("phases") or {}).keys())
-            for _ in range(2):
+            for round_ in range(2):
                 kw = dict(ta=rng.choice([-20.0, 60.0, 85.0, rng.uniform(-40, 125)]), energy=rng.random() < 0.5)
                 if rng.random() < 0.4:
                     kw.update(vtol=1e-8, itol=1e-8)
@@ -357,6 +357,20 @@ def run_interleave(ctx, case, ns, rng, spec, sysobj):
                 stp, pristine = H.try_build(sp)
                 if stp != "ok":
                     continue
+                if round_ == 1 and rng.random() < 0.6:  # (last round only: the used system keeps the edit)
+                    # ... also after one and the same EDIT of both systems (the first rail / group of the system, or a
+                    # parameter change): what the earlier analyses left behind must not outlive the edit either
+                    cand = [c for c in sp["comps"] if c["kind"] not in S.LOADS and c["kind"] != "PMux"]
+                    if cand:
+                        c = rng.choice(cand)
+                        new_rail = c.get("rail") or "R late"
+                        new_group = c.get("group") or "G late"
+                        for target in (sj, pristine):
+                            H.call(target.change_comp, c["name"], comp=S.make_comp(ns, c), group=new_group, rail=new_rail)
+                            if c.get("phase") is not None:
+                                H.call(target.set_comp_phases, c["name"], copy.deepcopy(c["phase"]))
+                        kw = dict(kw)
+                        ctx.count("later_calls", "after an identical edit of both systems")
                 s1, a = H.call(getattr(sj, which), **kw)
                 s2, b = H.call(getattr(pristine, which), **kw)
                 det = {"call": which, "kwargs": kw, "kind": "later/" + which}
